@@ -279,6 +279,35 @@ Proof.
 Qed.
 Print Assumptions c01_tls_monitor_accepts_model.
 
+(* QUIC (and WebTransport's listener) reuse Identity.ConfigForPeer: a dial with
+   expected peer p against a listener holding identity idL, both presenting their
+   honest certificates, completes iff p is idL's peer ID, and the monitor accepts
+   the model's trace *)
+Lemma honest_presents_own : forall id e, (0 <= id)%Z -> presents_only_own (honest_tside id e) id.
+Proof.
+  intros id e Hid k Hc _. unfold certifies, honest_tside in Hc. cbn in Hc.
+  apply andb_true_iff in Hc. destruct Hc as [H1 _]. apply N.eqb_eq in H1. subst.
+  apply Z2N.id. exact Hid.
+Qed.
+
+Theorem c01_quic_dial_authenticates : forall idD idL p wp,
+  (0 <= idD)%Z -> (0 <= idL)%Z ->
+  let d := honest_tside idD (Some p) in let l := honest_tside idL None in
+  tfailed (fst (tls_run d l TNone)) = negb (p =? Z.to_N idL)%N /\
+  judge_tls_side d l idL false (tobs_of (fst (tls_run d l TNone)) (snd (tls_run d l TNone)) wp) = [] /\
+  judge_tls_side l d idD false (tobs_of (snd (tls_run d l TNone)) (fst (tls_run d l TNone)) wp) = [].
+Proof.
+  intros idD idL p wp HD HL d l. split.
+  - unfold d, l, honest_tside. generalize (Z.to_N idL) as n. generalize (Z.to_N idD) as m. intros m n.
+    unfold tls_run, tls_endpoint, verify_peer, pubkey_from_chain, cert_verify, self_signed, sig_verify.
+    simpl. rewrite !N.eqb_refl. simpl.
+    destruct (p =? n)%N; reflexivity.
+  - pose proof (c01_tls_monitor_accepts_model d l TNone idD idL wp
+                  (honest_presents_own idD (Some p) HD) (honest_presents_own idL None HL)) as H.
+    destruct (tls_run d l TNone) as [rc rs]. exact H.
+Qed.
+Print Assumptions c01_quic_dial_authenticates.
+
 (* ============================ swarm ============================================ *)
 
 (* dial_never_returns_other_peer: whatever connection the transport (dialAddr)
